@@ -276,6 +276,14 @@ def make_case(rng, k, M):
     # integrated variables: one value per SEGMENT (n-1)
     c.integ = [np.array([rng.choice([0.0, rng.uniform(0.1, 1000.0), rng.uniform(0.1, 1000.0)])
                          for _ in range(n - 1)]) for _ in range(c.n_integ)]
+    if rng.random() < 0.3:
+        # integer-typed per-segment quantities (counts) are quantities too
+        q = rng.randrange(c.n_integ)
+        c.integ[q] = np.array([rng.choice([0, 1, 2, 3, 7, 20]) for _ in range(n - 1)],
+                              dtype=np.int64)
+        c.int_integ = True
+    else:
+        c.int_integ = False
     c.M = M
     c.desc = {'kind': c.kind, 'grid': c.grid, 'axes': ('alt' if c.alt_g is not None else '')
               + ('+time' if c.tim_g is not None else ''),
